@@ -352,6 +352,13 @@ func checkC14(c *Ctx) {
 		}
 	}
 	c.cur = ""
+	// the portable conditional moves reduce the selector to one bit (the selectors passed to them include -1)
+	for _, n := range cfgs {
+		if pr := progs[n]; pr != nil && (n == "amd64-purego" || n == "amd64") {
+			c.cur = n
+			checkSelectMask(c, pr, "C14.selector")
+		}
+	}
 	// --- C14.sibling
 	type key struct{ pkg, name string }
 	index := func(p *Program) map[key]*ssa.Function {
